@@ -99,6 +99,7 @@ def main():
     else:
         lps_full = []
         lps_cov = family_stream(ck.rng, 36)
+    lps_cov += [boxed_ranged(ck.rng, name="bx%d" % i) for i in range(60 if ck.thorough() else 12)]
     cov = pairwise(ck.rng, 60 if ck.thorough() else 40)
     cases, meta = [], {}
     for li, lp in enumerate(lps_full):
